@@ -900,7 +900,9 @@ def rules(tier):
             # C09-da / C19-da: the error policy of a reader is part of what a ruleset file means
             ('C07.R21', _shared_rule('plumbing', 'decode_error_policy')),
             # C12-da: the OMEN level read from omen_keyspace.txt kept as a string
-            ('C07.R22', _shared_rule('c07', 'r22_keyspace_types'))]
+            ('C07.R22', _shared_rule('c07', 'r22_keyspace_types')),
+            # mutation sweep: a base structure means the same transitions to the loader as to the trainer
+            ('C07.R23', _shared_rule('c14', 'r20_structure_tokeniser'))]
 
 
 META = {
